@@ -42,7 +42,7 @@ def run(res, replay=None):
         res.count(f"{case['group']}:{case['dim']}D:{'periodic' if case['periodic'] else 'reflective'}")
         if o is None or "panic" in o or of is None or "panic" in of:
             bad = o if (o is None or "panic" in o) else of
-            res.violation("panic:" + ("no-suitable-vertex" if "No suitable" in str((bad or {}).get("panic")) else "other"), f"construction panicked: {(bad or {}).get('panic')}", ctx)
+            res.violation("panic:" + geo.panic_signature(bad, case), f"construction panicked: {(bad or {}).get('panic')}", ctx)
             continue
         mask = case["mask"]
         n = len(mask)
